@@ -182,7 +182,7 @@ class Engine:
             if old.name == name and old.verdict == 'refuted':
                 st.assume(goal)     # already refuted on another path: one counterexample is enough
                 return
-        verdict, backend, ms, info = solve.prove(st.pc, goal)
+        verdict, backend, ms, info = solve.prove(st.pc, goal, timeout_ms=getattr(self, 'timeout_ms', None))
         if os.environ.get('PYVC_TRACE'):
             print('TRACE %-50s %-9s %7.0fms pc=%d last-line=%s' % (name, verdict, ms, len(st.pc), getattr(st, 'last_line', '?')), flush=True)
         model = None
